@@ -3,7 +3,7 @@
    canonical re-encoding, identity = hash of the re-encoding, size = length of the encoding), evaluated on
    what the implementation returned. *)
 From NG Require Export Common.Tactics Common.HarnessLib Codec.Bigint Codec.Wire Codec.TxCodec Codec.ItemCodec Codec.ExecCodec Codec.MptCodec Codec.StateCodec Codec.NetCodec.
-From NG Require Export Auth.Permission Auth.PermStore Codec.ManifestItem.
+From NG Require Export Auth.Permission Auth.PermStore Codec.ManifestItem Codec.ConsensusCodec.
 From Coq Require String.
 From NG Require Import Common.Sha256.
 Open Scope Z_scope.
@@ -38,7 +38,8 @@ Inductive case :=
 | CFrameDec (bs : list Z) (dz : option (list Z)) (impl : dimpl) (* network.Message.Decode; dz = what decompression of the raw payload gives *)
 | CNotifDec (bs : list Z) (impl : dimpl)                 (* state.NotificationEvent *)
 | CAerDec (bs : list Z) (impl : dimpl)                   (* state.AppExecResult (stack items in protected mode) *)
-| CManifestItem (m : mmanifest) (impl : xitem).          (* Manifest.ToStackItem (shape), accepted back by FromStackItem *)
+| CManifestItem (m : mmanifest) (impl : xitem)
+| CConsMsg (sr : bool) (m : cmessage) (impl : list Z).   (* the data of a consensus payload re-encoded by pkg/consensus FROM ITS FIELDS after decoding the harness's own layout of m under StateRootInHeader = sr *)          (* Manifest.ToStackItem (shape), accepted back by FromStackItem *)
 
 (* decode with [d], re-encode with [w]; identity functions [h] (hashed bytes) and size *)
 Definition dec_check {A} (d : dec A) (w : A -> list Z) (hashed : option (A -> list Z)) (whole : bool)
@@ -156,6 +157,15 @@ Definition check_case (c : case) : N :=
       (* specification: the stored form read back by the model is a manifest that stores to the same item (the model's
          from/to are proved inverse and injective, so this is "reads back as m") *)
       let sp := match manifest_from_item impl with Some m' => xitem_eqb (manifest_to_item m') (manifest_to_item m) | None => false end in
+      code_of mo sp
+  | CConsMsg sr m impl =>
+      let mo := zl_eqb (write_cmessage sr m) impl in
+      (* specification: under the same setting the bytes read back, completely, as a message with the same encoding
+         (read and write are proved inverse for both settings, so this is "reads back as m") *)
+      let sp := match read_cmessage sr impl with
+                | Some (m', []) => zl_eqb (write_cmessage sr m') (write_cmessage sr m)
+                | _ => false
+                end in
       code_of mo sp
   end.
 
